@@ -1,7 +1,9 @@
 /-!
 # Event tree (`pyrex/particle.py`: `Event`) — discrete model, core Lean only
 
-Particles are natural-number identities (Python object identity).  `all` is `Event._all` (insertion
+Particles are natural-number identities (Python object identity).  All fields are VALUES: the event owns its
+`roots` (the code copies the caller's list since F24 and hands out a copy at level 0), so nothing a caller does to a
+list it passed in or got back can change the event.  `all` is `Event._all` (insertion
 order), `children[i]` is `Event._children[i]`: indices into `all`.
 -/
 namespace PyrexD.Tree
